@@ -38,7 +38,10 @@ type Slice struct {
 }
 
 // Bytes is a read-only []byte view of a string term (result of []byte(s)).
-type Bytes struct{ S *Term }
+type Bytes struct {
+	S   *Term
+	Hex bool // S is the lower-case hex rendering of the raw bytes (hash digests)
+}
 
 type MapRef struct{ Obj int }
 type ChanRef struct{ Obj int }
